@@ -210,3 +210,7 @@ def check(ctx):
     sc = ctx.sites(hp, "return $S._effectively_cancelled")
     ctx.ob("R12-h", hp, "otherwise the verdict is the task's current scope's effective cancellation", len(sc) == 1,
            detail="" if sc else "no `return cancel_scope._effectively_cancelled`", by=("return cancel_scope._effectively_cancelled",))
+
+    # ---- R12-i `async for` over the stream is receive() until EndOfStream -------------------------------------------------------------
+    from .common import iteration_protocol
+    iteration_protocol(ctx, "R12-i", "UnreliableObjectReceiveStream")
